@@ -220,7 +220,7 @@ theorem ech_aad_slice_no_panic (inh : Kind → Bytes → Bool) (vers13 haveVers 
       obtain ⟨b', hb⟩ := idx_ok hand 2 (by omega)
       obtain ⟨c, hc⟩ := idx_ok hand 3 (by omega)
       simp only [ht, ha, hb, hc] at h ⊢
-      generalize (if (haveVers && t == typeCertificate) = true then maxHandshakeCert else maxHandshake) = limit at h ⊢
+      generalize (if (haveVers && (t == typeCertificate || t == typeCompressedCert)) = true then maxHandshakeCert else maxHandshake) = limit at h ⊢
       by_cases h1 : a * 65536 + b' * 256 + c > limit
       · simp [h1] at h
       · simp only [h1, if_false] at h ⊢
